@@ -451,6 +451,10 @@ class Context:
         :param event: The network information of the remote Supvisors instance.
         :return: None.
         """
+        if not event:
+            # the XML-RPC get_network_info failed in the SupervisorProxy
+            self.logger.warn('Context.on_identification_event: no network information received')
+            return
         # only accepted if later than CHECKING date
         identifier, timestamp = event['identifier'], event['now_monotonic']
         status: SupvisorsInstanceStatus = self.instances[identifier]
